@@ -569,4 +569,237 @@ Proof.
     + intros _ L. lia.
 Qed.
 
+(* crediting the connection window: at most a WINDOW_UPDATE on stream 0 *)
+Lemma credit_out c n : sc_sl_done c = false -> sc_wl_dead c = false ->
+  exists dw, sc_out (credit_conn_window cfg c n) = dw ++ sc_out c /\ filter noisy dw = [] /\ (forall sid rq, ~ In (ODispatch sid rq) dw).
+Proof.
+  intros A B. unfold credit_conn_window. destruct (n <=? 0)%Z.
+  - exists []. split; [reflexivity|]. split; [reflexivity | intros sid rq []].
+  - destruct (_ <? _)%Z.
+    + exists [OWinUpd 0 (cf_maxWindow cfg - (sc_currentWindow c - n))%Z]. split.
+      * unfold write_window_update. rewrite sc_out_emit. sc_cbn. rewrite B, A. reflexivity.
+      * split; [reflexivity | intros sid rq [H|[]]; discriminate].
+    + exists []. split; [reflexivity|]. split; [reflexivity | intros sid rq []].
+Qed.
+
+(* a stream made for this frame *)
+Definition created c (fr : sframe) (c2 : sconn) (st : stream) : Prop :=
+  st = set_orig_started (new_stream (sf_sid fr) (sc_initWin c)) (sf_kind fr) (sc_now c) /\
+  ring_find c (sf_sid fr) = None /\ sc_lastID c <= sf_sid fr /\
+  match sf_kind fr with
+  | KHeaders => sc_highestID c < sf_sid fr /\ sc_closing c = false /\
+                c2 = upd_open (upd_strms (upd_lastID (upd_highestID c (sf_sid fr)) (sf_sid fr)) (sc_strms c ++ [st])) (sc_open c + 1)
+  | KRst | KPriority => False
+  | _ => c2 = upd_strms c (sc_strms c ++ [st])
+  end.
+
+Lemma closed_verdicts_hdr s fr w : RS.st_of s (sf_sid fr) = RS.Closed w -> w <> RS.Implicit ->
+  RS.block s = None -> sf_sid fr <> 0 -> sf_kind fr = KHeaders ->
+  RS.verdicts s (RS.Frame (abs_frame fr)) =
+  match w with
+  | RS.WeRst => RS.VIgnore :: RS.block_errors
+  | RS.PeerRst => [RS.SE c_StreamClosedError]
+  | _ => [RS.CE c_StreamClosedError; RS.SE c_StreamClosedError]
+  end.
+Proof.
+  intros Hw Hi B Z K. rewrite verdicts_stream; [|exact B | exact Z | rewrite K; exact I].
+  unfold RS.on_stream, RS.by_state, abs_frame. cbn [RS.f_kind RS.f_sid]. rewrite Hw, K. cbn [abs_kind].
+  destruct w; try congruence; rewrite app_nil_r; reflexivity.
+Qed.
+
+Lemma sl_pre_unknown c s ph fr ec' :
+  Sim c s ph -> sc_sl_done c = false -> seq_ok c fr ec' -> N.odd (sf_sid fr) = true ->
+  match sf_kind fr with KPing | KPush => False | _ => True end -> tbl c (sf_sid fr) = None ->
+  (fkind_eqb (sf_kind fr) KCont && negb (sc_discardID c =? 0) && (sf_sid fr =? sc_discardID c) = false)%bool ->
+  match sl_pre (upd_expectCont c ec') fr with
+  | inl r => feed c (IIn (RFrame fr)) = fst r -> G c s ph (RFrame fr) (feed c (IIn (RFrame fr)))
+  | inr (c2, st) => created (upd_expectCont c ec') fr c2 st
+  end.
+Proof.
+  intros HS Hsl SQ Od Kok Tn ND.
+  pose proof (S_aux _ _ _ _ HS) as [AT AH]. pose proof (A_wl _ _ AT) as Hwl. pose proof (S_wf _ _ _ _ HS) as W.
+  pose proof (Zn_of_odd _ Od) as Zn. assert (Znn : sf_sid fr <> 0) by lia.
+  set (c1 := upd_expectCont c ec').
+  unfold sl_pre.
+  replace (if sf_sid fr <=? sc_lastID c1 then strms_search (sc_strms c1) (sf_sid fr) else None) with (@None stream)
+    by (change (strms_search (sc_strms c1) (sf_sid fr)) with (tbl c (sf_sid fr)); rewrite Tn; destruct (_ <=? _); reflexivity).
+  cbv zeta.
+  destruct (unknown_state c s ph _ HS Od Tn) as [Hle Hgt].
+  (* the header-block register *)
+  assert (BK : (sf_kind fr <> KCont /\ RS.block s = None /\ sc_expectCont c = 0) \/
+               (sf_kind fr = KCont /\ RS.block s = Some (sf_sid fr) /\ sc_expectCont c = sf_sid fr)).
+  { pose proof (block_of_ec hstate c s (S_blk _ _ _ _ HS)) as B. destruct SQ as [(E0 & K & _)|(E0 & K & Sd & _)].
+    - left. rewrite B, E0. auto.
+    - right. rewrite B. replace (sc_expectCont c =? 0) with false by lia. rewrite Sd. auto. }
+  change (sc_lastID c1) with (sc_lastID c). change (sc_highestID c1) with (sc_highestID c). change (in_ring c1 (sf_sid fr)) with (in_ring c (sf_sid fr)).
+  change (ring_find c1 (sf_sid fr)) with (ring_find c (sf_sid fr)). change (sc_closing c1) with (sc_closing c).
+  (* RST_STREAM *)
+  destruct (fkind_eqb (sf_kind fr) KRst) eqn:KR.
+  { apply fkind_eqb_eq in KR. destruct BK as [(K & BN & E0)|(K & _)]; [|congruence].
+    assert (V : RS.verdicts s (RS.Frame (abs_frame fr)) = RS.on_stream s (abs_frame fr))
+      by (apply verdicts_stream; [exact BN | exact Znn | rewrite KR; exact I]).
+    destruct ((sc_lastID c <? sf_sid fr) && (sc_highestID c <? sf_sid fr))%bool eqn:C; cbn [fst cont]; intro E.
+    - apply andb_true_iff in C. destruct C as [_ C2]. destruct (Hgt ltac:(lia)) as [Hidle _].
+      apply (G_sl_goaway c s ph fr ec' c_ProtocolError HS Hsl SQ Od Tn E).
+      left. apply allowed_table. rewrite V. unfold RS.on_stream, RS.by_state, abs_frame. cbn [RS.f_kind RS.f_sid]. rewrite Hidle, KR. reflexivity.
+    - assert (L : sf_sid fr <= sc_highestID c).
+      { apply andb_false_iff in C. pose proof (A_last _ _ AT). destruct C as [C|C]; lia. }
+      destruct (Hle L) as [w Hw].
+      apply (G_sl_quiet c s ph fr ec' c1 []); try assumption; try reflexivity.
+      + repeat split.
+      + intros sid rq [].
+      + left. right. rewrite V. unfold RS.on_stream, RS.by_state, abs_frame. cbn [RS.f_kind RS.f_sid]. rewrite Hw, KR. cbn [abs_kind].
+        destruct w; reflexivity.
+      + rewrite Hw. apply receive_closed.
+      + left. reflexivity.
+      + intro Hne. exfalso. apply Hne. destruct SQ as [(_ & _ & ->)|(_ & K' & _)]; [rewrite KR; reflexivity | congruence].
+      + intros _ L'. lia. }
+  apply fkind_eqb_neq in KR.
+  (* remembered in the ring *)
+  destruct (in_ring c (sf_sid fr)) eqn:IR.
+  { rewrite in_ring_find in IR. destruct (ring_find c (sf_sid fr)) as [b|] eqn:RF; [|discriminate].
+    pose proof (ring_state c s ph _ b HS Od Tn RF) as RSt.
+    assert (L : sf_sid fr <= sc_highestID c).
+    { destruct (N.le_gt_cases (sf_sid fr) (sc_highestID c)) as [L|L]; [exact L|]. destruct (Hgt L) as [_ X]. congruence. }
+    destruct (Hle L) as [w Hw].
+    cbv beta iota.
+    destruct BK as [(K & BN & E0)|(K & BS & E0)].
+    - (* outside a header block *)
+      assert (V : match sf_kind fr with KCont | KSettings | KPing | KGoAway | KPush => True | _ =>
+                  RS.verdicts s (RS.Frame (abs_frame fr)) = RS.on_stream s (abs_frame fr) end).
+      { destruct (sf_kind fr) eqn:KK; try exact I; apply verdicts_stream; try assumption; rewrite KK; exact I. }
+      assert (EC0 : sf_kind fr <> KHeaders -> ec' = 0).
+      { intro NH. destruct SQ as [(_ & _ & ->)|(_ & K' & _)]; [|congruence]. apply fkind_eqb_neq in NH. rewrite NH. reflexivity. }
+      revert Kok V EC0. destruct (sf_kind fr) eqn:KK; intros Kok V EC0; try contradiction; try congruence.
+      + (* DATA *)
+        destruct b; cbn [fst cont]; intro E.
+        * destruct (credit_out c1 (Z.of_N (sf_len fr)) Hsl Hwl) as (dw & Ho & Hq & Hnd).
+          apply (G_sl_quiet c s ph fr ec' _ dw HS Hsl SQ Od Tn E); try assumption.
+          -- repeat split; sc_rw; reflexivity.
+          -- sc_rw. exact Hsl.
+          -- sc_rw. reflexivity.
+          -- sc_rw. reflexivity.
+          -- left. right. rewrite V. unfold RS.on_stream, RS.by_state, abs_frame. cbn [RS.f_kind RS.f_sid]. rewrite RSt, KK. reflexivity.
+          -- rewrite Hw. apply receive_closed.
+          -- left. sc_rw. reflexivity.
+          -- intro Hne. exfalso. apply Hne, EC0. discriminate.
+          -- intros _ L'. lia.
+        * apply (G_sl_goaway c s ph fr ec' c_StreamClosedError HS Hsl SQ Od Tn E).
+          left. apply allowed_table. rewrite V. unfold RS.on_stream, RS.by_state, abs_frame. cbn [RS.f_kind RS.f_sid].
+          destruct RSt as [-> | ->]; rewrite KK; reflexivity.
+      + (* HEADERS *)
+        destruct b; cbn [fst cont]; intro E.
+        * apply (G_sl_discard c s ph fr ec' HS Hsl SQ Od Tn); auto.
+          rewrite (closed_verdicts_hdr s fr RS.WeRst RSt); auto. discriminate.
+        * apply (G_sl_goaway c s ph fr ec' c_StreamClosedError HS Hsl SQ Od Tn E).
+          left. apply allowed_table.
+          destruct RSt as [X | X]; rewrite (closed_verdicts_hdr s fr _ X) by (auto; discriminate); reflexivity.
+      + (* PRIORITY *)
+        cbn [fst cont]. intro E.
+        apply (G_sl_quiet c s ph fr ec' c1 [] HS Hsl SQ Od Tn E); try assumption; try reflexivity.
+        * repeat split.
+        * intros sid rq [].
+        * left. right. rewrite V. unfold RS.on_stream, RS.by_state, abs_frame. cbn [RS.f_kind RS.f_sid RS.f_self]. rewrite Hw, KK. cbn [abs_kind].
+          destruct w; reflexivity.
+        * rewrite Hw. apply receive_closed.
+        * left. reflexivity.
+        * intro Hne. exfalso. apply Hne, EC0. discriminate.
+        * intros _ L'. lia.
+      + (* SETTINGS with a stream id *)
+        cbn [fst cont]. intro E.
+        apply (G_sl_goaway c s ph fr ec' c_StreamClosedError HS Hsl SQ Od Tn E).
+        right. unfold known_deviation. rewrite KK, Zn, in_ring_find, RF. reflexivity.
+      + (* GOAWAY with a stream id *)
+        cbn [fst cont]. intro E.
+        apply (G_sl_goaway c s ph fr ec' c_StreamClosedError HS Hsl SQ Od Tn E).
+        right. unfold known_deviation. rewrite KK, Zn, in_ring_find, RF. reflexivity.
+      + (* WINDOW_UPDATE *)
+        cbn [fst cont]. intro E.
+        apply (G_sl_quiet c s ph fr ec' c1 [] HS Hsl SQ Od Tn E); try assumption; try reflexivity.
+        * repeat split.
+        * intros sid rq [].
+        * destruct b.
+          -- left. right. rewrite V. unfold RS.on_stream, RS.by_state, abs_frame. cbn [RS.f_kind RS.f_sid]. rewrite RSt, KK. reflexivity.
+          -- destruct RSt as [X | X].
+             ++ left. right. rewrite V. unfold RS.on_stream, RS.by_state, abs_frame. cbn [RS.f_kind RS.f_sid]. rewrite X, KK. reflexivity.
+             ++ right. unfold known_deviation. rewrite KK, RF, X. reflexivity.
+        * rewrite Hw. apply receive_closed.
+        * left. reflexivity.
+        * intro Hne. exfalso. apply Hne, EC0. discriminate.
+        * intros _ L'. lia.
+    - (* CONTINUATION of a block whose HEADERS was a connection error *)
+      rewrite K. cbn [fst cont]. intro E.
+      apply (G_sl_goaway c s ph fr ec' c_StreamClosedError HS Hsl SQ Od Tn E).
+      left. apply allowed_dead; [|reflexivity].
+      assert (Hne : sc_expectCont c <> 0) by lia.
+      destruct (S_cont _ _ _ _ HS Hne) as [X|X]; [rewrite E0; exact Tn | | exact X].
+      exfalso. rewrite K in ND. cbn [fkind_eqb andb] in ND. rewrite X, E0 in ND. rewrite Zn, N.eqb_refl in ND. discriminate. }
+  (* not remembered *)
+  rewrite in_ring_find in IR. destruct (ring_find c (sf_sid fr)) as [b|] eqn:RN; [discriminate|]. clear IR.
+  assert (Old : sf_sid fr <= sc_highestID c -> RS.st_of s (sf_sid fr) = RS.Closed RS.Implicit).
+  { intro L. pose proof (S_str _ _ _ _ HS _ Od) as R. rewrite (view_none c _ Tn), RN in R.
+    replace (sf_sid fr <=? sc_highestID c) with true in R by lia. exact R. }
+  assert (DeadCont : sf_kind fr = KCont -> RS.dead s = true).
+  { intro K. destruct BK as [(K' & _)|(_ & _ & E0)]; [congruence|].
+    assert (Hne : sc_expectCont c <> 0) by lia.
+    destruct (S_cont _ _ _ _ HS Hne) as [X|X]; [rewrite E0; exact Tn | | exact X].
+    exfalso. rewrite K in ND. cbn [fkind_eqb andb] in ND. rewrite X, E0 in ND. rewrite Zn, N.eqb_refl in ND. discriminate. }
+  (* PRIORITY *)
+  destruct (fkind_eqb (sf_kind fr) KPriority) eqn:KP.
+  { apply fkind_eqb_eq in KP. destruct BK as [(K & BN & E0)|(K & _)]; [|congruence].
+    assert (V : RS.verdicts s (RS.Frame (abs_frame fr)) = RS.on_stream s (abs_frame fr))
+      by (apply verdicts_stream; [exact BN | exact Znn | rewrite KP; exact I]).
+    assert (EC0 : ec' = 0) by (destruct SQ as [(_ & _ & ->)|(_ & K' & _)]; [rewrite KP; reflexivity | congruence]).
+    assert (St : (exists w, RS.st_of s (sf_sid fr) = RS.Closed w) \/ RS.st_of s (sf_sid fr) = RS.Idle).
+    { destruct (N.le_gt_cases (sf_sid fr) (sc_highestID c)) as [L|L]; [left; apply Hle, L | right; apply Hgt, L]. }
+    destruct (sf_dep fr =? sf_sid fr) eqn:SD; cbn [fst cont]; intro E.
+    - apply (G_sl_rst c s ph fr ec' c_ProtocolError HS Hsl SQ Od Tn E); auto.
+      + left. apply allowed_table. rewrite V. unfold RS.on_stream, RS.by_state, RS.priority_frame, abs_frame. cbn [RS.f_kind RS.f_sid RS.f_self].
+        rewrite KP, SD. cbn [abs_kind]. destruct St as [[w ->] | ->]; try destruct w; reflexivity.
+      + unfold RS.reset, abs_frame. cbn [RS.f_kind]. rewrite KP. cbn [abs_kind]. destruct St as [[w ->] | ->]; try destruct w; reflexivity.
+    - apply (G_sl_quiet c s ph fr ec' c1 [] HS Hsl SQ Od Tn E); try assumption; try reflexivity.
+      + repeat split.
+      + intros sid rq [].
+      + left. destruct St as [[w Hw] | Hi].
+        * right. rewrite V. unfold RS.on_stream, RS.by_state, abs_frame. cbn [RS.f_kind RS.f_sid RS.f_self]. rewrite Hw, KP, SD. destruct w; reflexivity.
+        * left. unfold RS.may_process. rewrite V. unfold RS.on_stream, RS.by_state, RS.priority_frame, abs_frame. cbn [RS.f_kind RS.f_sid RS.f_self].
+          rewrite Hi, KP, SD. reflexivity.
+      + unfold RS.receive, abs_frame. cbn [RS.f_kind]. rewrite KP. cbn [abs_kind]. destruct St as [[w ->] | ->]; try destruct w; reflexivity.
+      + left. reflexivity.
+      + intro Hne. congruence.
+      + intros _ _. exact KP. }
+  apply fkind_eqb_neq in KP.
+  (* HEADERS on an id already used *)
+  destruct (fkind_eqb (sf_kind fr) KHeaders && (sf_sid fr <=? sc_highestID c))%bool eqn:HH.
+  { apply andb_true_iff in HH. destruct HH as [KH L]. apply fkind_eqb_eq in KH. cbn [fst cont]. intro E.
+    destruct BK as [(K & BN & E0)|(K & _)]; [|congruence].
+    apply (G_sl_goaway c s ph fr ec' c_ProtocolError HS Hsl SQ Od Tn E).
+    left. apply allowed_table. rewrite verdicts_stream; [|exact BN | exact Znn | rewrite KH; exact I].
+    unfold RS.on_stream, RS.by_state, abs_frame. cbn [RS.f_kind RS.f_sid]. rewrite (Old ltac:(lia)), KH. reflexivity. }
+  destruct (fkind_eqb (sf_kind fr) KHeaders) eqn:KH.
+  - (* HEADERS on a new id *)
+    apply fkind_eqb_eq in KH. cbn [andb] in HH. assert (Gt : sc_highestID c < sf_sid fr) by lia.
+    change (sc_open (upd_highestID c1 (sf_sid fr))) with (sc_open c).
+    change (sc_lastID (upd_highestID c1 (sf_sid fr))) with (sc_lastID c).
+    change (sc_closing (upd_highestID c1 (sf_sid fr))) with (sc_closing c).
+    cbn [andb].
+    destruct ((cf_maxStreams cfg <=? sc_open c)%Z || sc_closing c)%bool eqn:RFS.
+    + intro E. apply (G_refuse c s ph fr ec' HS Hsl SQ Od Tn KH RN Gt E).
+    + apply orb_false_iff in RFS. destruct RFS as [_ CL].
+      pose proof (A_last _ _ AT) as LL. replace (sf_sid fr <? sc_lastID c) with false by lia. rewrite CL.
+      unfold created. rewrite KH. repeat split; try assumption; try lia. change (sc_lastID c1) with (sc_lastID c). lia.
+  - (* any other frame *)
+    cbn [andb]. apply fkind_eqb_neq in KH. change (sc_lastID c1) with (sc_lastID c).
+    destruct (sf_sid fr <? sc_lastID c) eqn:LT.
+    + cbn [fst cont]. intro E. apply (G_sl_goaway c s ph fr ec' c_ProtocolError HS Hsl SQ Od Tn E).
+      pose proof (A_last _ _ AT) as LL. pose proof (Old ltac:(lia)) as Hi.
+      left. destruct BK as [(K & BN & E0)|(K & _)]; [|apply allowed_dead; [apply DeadCont, K | reflexivity]].
+      apply allowed_table. revert Kok KR KP KH K. destruct (sf_kind fr) eqn:KK; intros; try contradiction; try congruence;
+        try (rewrite verdicts_stream_bad; [reflexivity | exact BN | exact Znn | rewrite KK; exact I]);
+        (rewrite verdicts_stream; [|exact BN | exact Znn | rewrite KK; exact I];
+         unfold RS.on_stream, RS.by_state, abs_frame; cbn [RS.f_kind RS.f_sid]; rewrite Hi, KK; reflexivity).
+    + unfold created. split; [reflexivity|]. split; [exact RN|]. split; [change (sc_lastID c1) with (sc_lastID c); lia|].
+      revert Kok KR KP KH. destruct (sf_kind fr); intros; try contradiction; try congruence; reflexivity.
+Qed.
+
 End Sl.
